@@ -286,6 +286,63 @@ pub fn extended_alphabet() -> Vec<Sym> {
     for (n, k) in broken {
         v.push(Sym { name: format!("BrokenConnection:{n}"), class: ErrClass::BrokenConnection, err: RequestAttemptError::BrokenConnectionError(k.into()) });
     }
+    // database errors: every further FIELD COMBINATION a policy could branch on (the base alphabet has one representative of
+    // these shapes). Classes follow the variant, never the payload: only unavailable / bootstrapping / read timeout prove
+    // non-application.
+    {
+        use scylla::errors::OperationType;
+        let mut more: Vec<(String, ErrClass, DbError)> = Vec::new();
+        for (on, op) in [("Read", OperationType::Read), ("Write", OperationType::Write), ("Other(7)", OperationType::Other(7))] {
+            for rbc in [false, true] {
+                if on == "Write" && rbc {
+                    continue; // the base alphabet's representative
+                }
+                more.push((format!("RateLimitReached({on},rejected_by_coordinator={rbc})"), ErrClass::OtherDb, DbError::RateLimitReached { op_type: op.clone(), rejected_by_coordinator: rbc }));
+            }
+        }
+        // consistency carried in the error BODY (the request's own consistency is what counts), required/alive extremes
+        for (cn, c) in [("SERIAL", Consistency::Serial), ("LOCAL_SERIAL", Consistency::LocalSerial), ("EACH_QUORUM", Consistency::EachQuorum), ("ANY", Consistency::Any)] {
+            more.push((format!("Unavailable(body_cl={cn},alive=1)"), ErrClass::Unavailable, DbError::Unavailable { consistency: c, required: 2, alive: 1 }));
+            more.push((format!("ReadTimeout(body_cl={cn},received=2,required=2,data_present=false)"), ErrClass::ReadTimeout, DbError::ReadTimeout { consistency: c, received: 2, required: 2, data_present: false }));
+            more.push((format!("WriteTimeout(body_cl={cn},BATCH_LOG,received=0)"), ErrClass::WriteTimeout, DbError::WriteTimeout { consistency: c, received: 0, required: 1, write_type: WriteType::BatchLog }));
+            more.push((format!("WriteTimeout(body_cl={cn},CAS,received=0)"), ErrClass::WriteTimeout, DbError::WriteTimeout { consistency: c, received: 0, required: 1, write_type: WriteType::Cas }));
+        }
+        for (required, alive) in [(0, 0), (1, 5), (i32::MAX, i32::MAX), (3, -1), (i32::MIN, 0)] {
+            more.push((format!("Unavailable(required={required},alive={alive})"), ErrClass::Unavailable, DbError::Unavailable { consistency: Consistency::Quorum, required, alive }));
+        }
+        for (received, required) in [(0, 0), (-1, 1), (i32::MAX, 1), (5, i32::MAX)] {
+            for data_present in [false, true] {
+                more.push((format!("ReadTimeout(received={received},required={required},data_present={data_present})"), ErrClass::ReadTimeout, DbError::ReadTimeout { consistency: Consistency::Quorum, received, required, data_present }));
+            }
+        }
+        for (n, wt) in write_types() {
+            for (received, required) in [(2, 1), (i32::MAX, 1), (-1, 1), (0, 0)] {
+                more.push((format!("WriteTimeout({n},received={received},required={required})"), ErrClass::WriteTimeout, DbError::WriteTimeout { consistency: Consistency::Quorum, received, required, write_type: wt.clone() }));
+            }
+            for (received, numfailures) in [(0, 1), (2, 0)] {
+                more.push((format!("WriteFailure({n},received={received},numfailures={numfailures})"), ErrClass::OtherDb, DbError::WriteFailure { consistency: Consistency::Quorum, received, required: 2, numfailures, write_type: wt.clone() }));
+            }
+        }
+        for (received, required, numfailures) in [(0, 2, 2), (2, 2, 0), (3, 2, 1)] {
+            for data_present in [false, true] {
+                more.push((
+                    format!("ReadFailure(received={received},required={required},numfailures={numfailures},data_present={data_present})"),
+                    ErrClass::OtherDb,
+                    DbError::ReadFailure { consistency: Consistency::Quorum, received, required, numfailures, data_present },
+                ));
+            }
+        }
+        more.push(("AlreadyExists(keyspace only)".into(), ErrClass::OtherDb, DbError::AlreadyExists { keyspace: "ks".into(), table: String::new() }));
+        more.push(("FunctionFailure(no args)".into(), ErrClass::OtherDb, DbError::FunctionFailure { keyspace: String::new(), function: String::new(), arg_types: vec![] }));
+        more.push(("Unprepared(empty id)".into(), ErrClass::OtherDb, DbError::Unprepared { statement_id: bytes::Bytes::new() }));
+        // unknown codes, incl. ones that collide with the codes of retryable errors and the extremes
+        for code in [0x1000, 0x1001, 0x1002, 0x1200, 0, -1, i32::MAX, i32::MIN] {
+            more.push((format!("Other({code:#x})"), ErrClass::OtherDb, DbError::Other(code)));
+        }
+        for (n, c, e) in more {
+            v.push(Sym { name: n, class: c, err: db(e) });
+        }
+    }
     // the other non-database families, one symbol per variant
     let mut client: Vec<(String, RequestAttemptError)> = Vec::new();
     let tfi = || u8::try_from(300i32).unwrap_err();
